@@ -233,6 +233,7 @@ class Ctx:
                 self.build_ok = False
                 return False, "TRANSLATOR FAILED (fail-closed)\n" + tlog
             refresh_coqproject()
+            stale_gen_guard()
             # force the property files to be rebuilt so that Print Assumptions is re-run by this check
             for t in targets:
                 if t.startswith("props/"):
@@ -437,6 +438,30 @@ def closure_files(targets):
         seen.add(t)
         todo += dep.get(t, [])
     return sorted(x[:-1] for x in seen)  # .vo -> .v
+
+
+def stale_gen_guard():
+    """a compiled gen/*.vo must come from the gen/*.v that is there now: make compares time stamps only, and a copy / restore of the
+    tree can leave a newer .vo beside an older, different .v.  The content hash each .vo was built from is kept beside it."""
+    import hashlib
+    g = os.path.join(COQ, "gen")
+    if not os.path.isdir(g):
+        return
+    for fn in os.listdir(g):
+        if not fn.endswith(".v"):
+            continue
+        p = os.path.join(g, fn)
+        h = hashlib.sha256(open(p, "rb").read()).hexdigest()
+        side = os.path.join(g, "." + fn + ".sha")
+        old = open(side).read().strip() if os.path.exists(side) else None
+        if old != h:
+            for ext in (".vo", ".vos", ".vok", ".glob"):
+                try:
+                    os.unlink(p[:-2] + ext)
+                except OSError:
+                    pass
+            with open(side, "w") as f:
+                f.write(h)
 
 
 def count_obligations(targets):
